@@ -7,6 +7,7 @@
 package main
 
 import (
+	"context"
 	"encoding/binary"
 	"encoding/json"
 	"fmt"
@@ -557,7 +558,10 @@ func isolatedVerdict(prop, bin, currentFile, replayDir string, seed uint64, shar
 	if _, err := os.Stat(currentFile); err != nil {
 		return ""
 	}
-	cmd := exec.Command(bin, "replay", currentFile)
+	// bounded: a case that makes the code under test spin must not hang the check
+	ctx, cancel := context.WithTimeout(context.Background(), 15*time.Minute)
+	defer cancel()
+	cmd := exec.CommandContext(ctx, bin, "replay", currentFile)
 	cmd.Env = append(os.Environ(), "GORACE=halt_on_error=0")
 	out, err := cmd.CombinedOutput()
 	log := string(out)
